@@ -9,7 +9,8 @@ from vlib import hexs, unhex
 
 class Comp:
     name = ""
-    driver = ""
+    driver = ""       # impl/<driver>.c
+    slice = ""        # coq/Extract_<slice>.v + ocaml/run_<slice>.ml
     sanitize = True
 
     def norm(self, line, out):
@@ -23,6 +24,7 @@ class Utf8(Comp):
     """ly_getutf8 / ly_pututf8 / ly_checkutf8 vs Utf8.v"""
     name = "utf8"
     driver = "t_xml"
+    slice = "xml"
 
     def gen(self, rng, tier, scale=1.0):
         L = []
@@ -66,6 +68,7 @@ class XmlEsc(Comp):
     """lyxml_dump_text vs XmlText.xml_esc"""
     name = "xmlesc"
     driver = "t_xml"
+    slice = "xml"
 
     def gen(self, rng, tier, scale=1.0):
         L = []
@@ -82,6 +85,7 @@ class XmlVal(Comp):
     """lyxml_parse_value vs XmlText.xml_value; witness = round trip through the implementation"""
     name = "xmlval"
     driver = "t_xml"
+    slice = "xml"
 
     def gen(self, rng, tier, scale=1.0):
         L = []
